@@ -25,6 +25,14 @@ Qed.
 Lemma step_none : forall m, step PNone m = (None, PNone).
 Proof. reflexivity. Qed.
 
+Lemma all_kinds_complete : forall kd, In kd all_kinds.
+Proof.
+  intros [b w]. destruct b as [| | |c rd| |]; try destruct c; try destruct rd; destruct w; cbv; tauto.
+Qed.
+
+Lemma forallb_kinds : forall (f : kind -> bool), forallb f all_kinds = true -> forall kd, f kd = true.
+Proof. intros f H kd. rewrite forallb_forall in H. apply H. apply all_kinds_complete. Qed.
+
 Lemma journal_none_call : forall m h k, journal PNone (Call m h k) = m :: journal PNone k.
 Proof.
   intros m h k. unfold journal.
@@ -37,10 +45,10 @@ Proof.
   intros P g. induction g as [r | m h IHh k IHk]; intros Hall p.
   - exact Hall.
   - cbn [all_leaves] in Hall.
-    apply andb_true_iff in Hall as [Hall Hk]. apply andb_true_iff in Hall as [He Hd].
+    apply andb_true_iff in Hall as [Hall Hk].
     destruct (step p m) as [[kd|] p'] eqn:Hs.
     + destruct (run_call_fault p m h k kd p' Hs) as [Ha _]. rewrite Ha.
-      apply IHh. destruct kd; assumption.
+      apply IHh. exact (forallb_kinds _ Hall kd).
     + destruct (run_call_pass p m h k p' Hs) as [Ha _]. rewrite Ha. apply IHk; assumption.
 Qed.
 
@@ -48,7 +56,7 @@ Qed.
 Lemma fail_closed_run : forall P ex g,
   fail_closed_prog P ex g = true ->
   forall p, hit p g = true ->
-  (forall m kd, In (m, kd) (faults p g) -> ex m = false) ->
+  (forall m kd, In (m, kd) (faults p g) -> ex m kd = false) ->
   P (answer p g) = true.
 Proof.
   intros P ex g. induction g as [r | m h IHh k IHk]; intros Hfc p Hhit Hex.
@@ -57,10 +65,10 @@ Proof.
     destruct (step p m) as [[kd|] p'] eqn:Hs.
     + destruct (run_call_fault p m h k kd p' Hs) as [Ha Ht].
       rewrite Ha.
-      assert (Hexm : ex m = false).
+      assert (Hexm : ex m kd = false).
       { apply (Hex m kd). unfold faults. rewrite Ht. cbn. left. reflexivity. }
-      rewrite Hexm in Hm. cbn in Hm. apply andb_true_iff in Hm as [He Hd].
-      apply all_leaves_answer. destruct kd; assumption.
+      pose proof (forallb_kinds _ Hm kd) as Hkd. cbn beta in Hkd. rewrite Hexm in Hkd. cbn in Hkd.
+      apply all_leaves_answer. exact Hkd.
     + destruct (run_call_pass p m h k p' Hs) as [Ha Ht].
       rewrite Ha. apply IHk.
       * exact Hk.
@@ -86,12 +94,11 @@ Lemma strict_trace : forall g, strict g = true -> forall p, trace p g = upto_fau
 Proof.
   induction g as [r | m h IHh k IHk]; intros Hst p.
   - reflexivity.
-  - cbn [strict] in Hst.
-    destruct (h KError) as [re|] eqn:He; try discriminate.
-    destruct (h KDeadline) as [rd|] eqn:Hd; try discriminate.
+  - cbn [strict] in Hst. apply andb_true_iff in Hst as [Hh Hst].
     destruct (step p m) as [[kd|] p'] eqn:Hs.
     + destruct (run_call_fault p m h k kd p' Hs) as [_ Ht]. rewrite Ht.
-      destruct kd; [rewrite He | rewrite Hd]; reflexivity.
+      pose proof (forallb_kinds _ Hh kd) as Hr. cbn beta in Hr.
+      destruct (h kd); [reflexivity | discriminate Hr].
     + destruct (run_call_pass p m h k p' Hs) as [_ Ht]. rewrite Ht.
       cbn [upto_fault faulted snd]. f_equal. apply IHk. exact Hst.
 Qed.
@@ -114,12 +121,12 @@ Lemma journal_at : forall g, strict g = true -> forall k kd,
 Proof.
   induction g as [r | m h IHh k' IHk]; intros Hst k kd.
   - reflexivity.
-  - rewrite journal_none_call. cbn [strict] in Hst.
-    destruct (h KError) as [re|] eqn:He; try discriminate.
-    destruct (h KDeadline) as [rd|] eqn:Hd; try discriminate.
+  - rewrite journal_none_call. cbn [strict] in Hst. apply andb_true_iff in Hst as [Hh Hst].
     destruct k as [|k].
     + destruct (run_call_fault _ m h k' kd _ (step_at_1 kd m)) as [_ Ht].
-      unfold journal. rewrite Ht. destruct kd; [rewrite He | rewrite Hd]; reflexivity.
+      unfold journal. rewrite Ht.
+      pose proof (forallb_kinds _ Hh kd) as Hr. cbn beta in Hr.
+      destruct (h kd); [reflexivity | discriminate Hr].
     + destruct (run_call_pass _ m h k' _ (step_at_SS k kd m)) as [_ Ht].
       unfold journal at 1. rewrite Ht. cbn [map fst firstn]. f_equal.
       apply (IHk Hst k kd).
@@ -159,7 +166,7 @@ Lemma handlers_fail_closed : forall r f, wf_flow f = true ->
   fail_closed_prog (closed_answer f) (excused f) (handler r f) = true.
 Proof.
   intros r f Hwf.
-  destruct r; destruct f as [c b|c m|c b m|c b|c|c| |c s w|c|c b b'|c|c|c t b|c v| | |];
+  destruct r; destruct f as [c b|c|c m|c b m|c b|c|c| |c s w|c|c b b'|c|c|c t b|c v| | |];
     repeat match goal with
            | x : client |- _ => destruct x | x : bool |- _ => destruct x | x : rmode |- _ => destruct x
            | x : subj |- _ => destruct x | x : want |- _ => destruct x | x : revtok |- _ => destruct x
@@ -168,10 +175,10 @@ Proof.
     try discriminate Hwf; vm_compute; reflexivity.
 Qed.
 
-Lemma handlers_strict : forall r f, revokes_jwt f = false -> strict (handler r f) = true.
+Lemma handlers_strict : forall r f, goes_on f = false -> strict (handler r f) = true.
 Proof.
   intros r f Hn.
-  destruct r; destruct f as [c b|c m|c b m|c b|c|c| |c s w|c|c b b'|c|c|c t b|c v| | |];
+  destruct r; destruct f as [c b|c|c m|c b m|c b|c|c| |c s w|c|c b b'|c|c|c t b|c v| | |];
     repeat match goal with
            | x : client |- _ => destruct x | x : bool |- _ => destruct x | x : rmode |- _ => destruct x
            | x : subj |- _ => destruct x | x : want |- _ => destruct x | x : revtok |- _ => destruct x
@@ -202,13 +209,71 @@ Proof.
     congruence.
 Qed.
 
-Lemma open_finding_false : forall i, open_finding i = false ->
-  forall m kd, In (m, kd) (faults (in_plan i) (in_prog i)) -> excused (in_flow i) m = false.
+Lemma faults_none : forall g, faults PNone g = [].
 Proof.
-  intros i H m kd Hin. destruct (excused (in_flow i) m) eqn:He; [|reflexivity].
-  assert (open_finding i = true).
-  { unfold open_finding. apply existsb_exists. exists (m, kd). split; [exact Hin | exact He]. }
-  congruence.
+  induction g as [r | m h IHh k IHk]; [reflexivity|].
+  destruct (run_call_pass PNone m h k PNone (step_none m)) as [_ Ht].
+  unfold faults in *. rewrite Ht. exact IHk.
+Qed.
+
+(* a reached failure is the plan's: its value, at the plan's position / method *)
+Lemma faults_at : forall g k kd m kd', In (m, kd') (faults (PAt k kd) g) ->
+  kd' = kd /\ nth_error (journal (PAt k kd) g) (k - 1) = Some m.
+Proof.
+  induction g as [r | m0 h IHh k0 IHk]; intros k kd m kd' Hin.
+  - destruct Hin.
+  - destruct k as [|[|k]].
+    + assert (Hs : step (PAt 0 kd) m0 = (None, PNone)) by reflexivity.
+      destruct (run_call_pass _ m0 h k0 _ Hs) as [_ Ht].
+      unfold faults in Hin. rewrite Ht in Hin. cbn in Hin. fold (faults PNone k0) in Hin.
+      rewrite faults_none in Hin. destruct Hin.
+    + destruct (run_call_fault _ m0 h k0 kd _ (step_at_1 kd m0)) as [_ Ht].
+      unfold faults in Hin. rewrite Ht in Hin. cbn in Hin. fold (faults PNone (h kd)) in Hin.
+      rewrite faults_none in Hin. destruct Hin as [Heq | []]. inversion Heq; subst.
+      split; [reflexivity|]. unfold journal. rewrite Ht. reflexivity.
+    + destruct (run_call_pass _ m0 h k0 _ (step_at_SS k kd m0)) as [_ Ht].
+      unfold faults in Hin. rewrite Ht in Hin. cbn in Hin.
+      destruct (IHk (S k) kd m kd' Hin) as [Hkd Hn]. split; [exact Hkd|].
+      unfold journal at 1. rewrite Ht. cbn [map fst]. cbn [Nat.sub] in *.
+      rewrite Nat.sub_0_r in Hn. exact Hn.
+Qed.
+
+Lemma faults_method : forall g m0 kd0 m kd', In (m, kd') (faults (PMethod m0 kd0) g) ->
+  m = m0 /\ kd' = kd0.
+Proof.
+  induction g as [r | m1 h IHh k IHk]; intros m0 kd0 m kd' Hin.
+  - destruct Hin.
+  - destruct (method_beq m1 m0) eqn:Hb.
+    + assert (Hs : step (PMethod m0 kd0) m1 = (Some kd0, PMethod m0 kd0)) by (cbn; rewrite Hb; reflexivity).
+      destruct (run_call_fault _ m1 h k kd0 _ Hs) as [_ Ht].
+      unfold faults in Hin. rewrite Ht in Hin. cbn in Hin. destruct Hin as [Heq | Hin].
+      * inversion Heq; subst. split; [apply internal_method_dec_bl; exact Hb | reflexivity].
+      * exact (IHh kd0 m0 kd0 m kd' Hin).
+    + assert (Hs : step (PMethod m0 kd0) m1 = (None, PMethod m0 kd0)) by (cbn; rewrite Hb; reflexivity).
+      destruct (run_call_pass _ m1 h k _ Hs) as [_ Ht].
+      unfold faults in Hin. rewrite Ht in Hin. exact (IHk m0 kd0 m kd' Hin).
+Qed.
+
+Lemma faults_plan : forall g p m kd, In (m, kd) (faults p g) ->
+  plan_failure p (journal p g) = Some (m, kd).
+Proof.
+  intros g p m kd Hin. destruct p as [|k kd0|m0 kd0].
+  - rewrite faults_none in Hin. destruct Hin.
+  - destruct (faults_at g k kd0 m kd Hin) as [Hk Hn]. subst. cbn [plan_failure]. rewrite Hn. reflexivity.
+  - destruct (faults_method g m0 kd0 m kd Hin) as [Hm Hk]. subst. reflexivity.
+Qed.
+
+Lemma not_excused : forall i, open_finding i = false ->
+  is_failure (in_plan i) (journal (in_plan i) (in_prog i)) = true ->
+  forall m kd, In (m, kd) (faults (in_plan i) (in_prog i)) -> excused (in_flow i) m kd = false.
+Proof.
+  intros i Hopen Hfail m kd Hin. unfold excused. apply orb_false_iff. split.
+  - destruct (open_pair (in_flow i) m) eqn:He; [|reflexivity].
+    assert (open_finding i = true).
+    { unfold open_finding. apply existsb_exists. exists (m, kd). split; [exact Hin | exact He]. }
+    congruence.
+  - unfold is_failure in Hfail. rewrite (faults_plan _ _ _ _ Hin) in Hfail.
+    apply negb_true_iff in Hfail. exact Hfail.
 Qed.
 
 Lemma fail_closed_partial : forall i, wf_input i = true -> open_finding i = false ->
@@ -216,17 +281,20 @@ Lemma fail_closed_partial : forall i, wf_input i = true -> open_finding i = fals
 Proof.
   intros i Hwf Hopen. unfold spec, model.
   destruct (hit (in_plan i) (in_prog i)) eqn:Hhit; [|reflexivity].
+  destruct (is_failure (in_plan i) (journal (in_plan i) (in_prog i))) eqn:Hfail; [|reflexivity].
+  cbn [andb].
   destruct (answer (in_plan i) (in_prog i)) as [cls e cs] eqn:Ha. cbn [r_cls r_err r_creds].
-  rewrite <- Ha. destruct i as [r f w p]. cbn [andb]. cbn [in_flow in_plan in_prog] in *.
+  rewrite <- Ha. pose proof (not_excused i Hopen Hfail) as Hex.
+  destruct i as [r f w p]. cbn [in_flow in_plan in_prog] in *.
   apply (fail_closed_run (closed_answer f) (excused f) (handler r f)).
   - apply handlers_fail_closed. exact Hwf.
   - exact Hhit.
-  - exact (open_finding_false (Req r f w p) Hopen).
+  - exact Hex.
 Qed.
 
 Lemma fail_closed_prop : forall r f p, wf_flow f = true ->
   hit p (handler r f) = true ->
-  (forall m kd, In (m, kd) (faults p (handler r f)) -> excused f m = false) ->
+  (forall m kd, In (m, kd) (faults p (handler r f)) -> excused f m kd = false) ->
   let a := answer p (handler r f) in
   (r_cls a = K302Err \/ r_cls a = K4xx \/ r_cls a = K5xx
    \/ (r_cls a = KInactive /\ is_introspection f = true))
@@ -239,32 +307,32 @@ Qed.
 
 Lemma fail_closed_refuted_discovery :
   exists i, wf_input i = true /\ spec i (model i) = false.
-Proof. exists (Req RProvider FDiscovery false (PAt 1 KError)). vm_compute. split; reflexivity. Qed.
+Proof. exists (Req RProvider FDiscovery false (PAt 1 (K BPlain false))). vm_compute. split; reflexivity. Qed.
 
 Lemma fail_closed_refuted_revocation :
   exists i, wf_input i = true /\ spec i (model i) = false.
-Proof. exists (Req RLegacy (FRevoke Web2 RevAccess true) true (PMethod MKeySet KDeadline)). vm_compute. split; reflexivity. Qed.
+Proof. exists (Req RLegacy (FRevoke Web2 RevAccess true) true (PMethod MKeySet (K BDeadline true))). vm_compute. split; reflexivity. Qed.
 
 Lemma fail_closed_nonvacuous :
   exists i, wf_input i = true /\ open_finding i = false /\ hit (in_plan i) (in_prog i) = true.
-Proof. exists (Req RLegacy (FTokenCode Web2 true) true (PAt 6 KDeadline)). vm_compute. repeat split. Qed.
+Proof. exists (Req RLegacy (FTokenCode Web2 true) true (PAt 6 (K (BOidc EAccessDenied false) false))). vm_compute. repeat split. Qed.
 
 Lemma device_mapping : forall r c off oid p kd rest,
   faults p (handler r (FDeviceToken c off oid)) = (MGetDeviceAuthorizatonState, kd) :: rest ->
   let a := answer p (handler r (FDeviceToken c off oid)) in
   r_cls a = K4xx /\ r_creds a = [] /\
-  r_err a = match kd with KDeadline => "slow_down" | KError => "access_denied" end.
+  r_err a = if is_deadline kd then "slow_down" else "access_denied".
 Proof.
   intros r c off oid p kd rest Hf a. subst a.
   rewrite (answers_with_run _ _ _ (device_answers r c off oid) p kd rest Hf).
-  destruct kd; repeat split.
+  repeat split.
 Qed.
 
 Lemma device_mapping_nonvacuous :
   exists r c off oid p kd rest,
     faults p (handler r (FDeviceToken c off oid)) = (MGetDeviceAuthorizatonState, kd) :: rest.
 Proof.
-  exists RProvider, Web, true, true, (PAt 2 KDeadline), KDeadline, []. reflexivity.
+  exists RProvider, Web, true, true, (PAt 2 (K BDeadline true)), (K BDeadline true), []. reflexivity.
 Qed.
 
 Lemma journal_prefix_handlers : forall r f p,
@@ -272,7 +340,7 @@ Lemma journal_prefix_handlers : forall r f p,
   map fst t = firstn (List.length t) (journal PNone (handler r f)).
 Proof. intros r f p. apply journal_prefix. Qed.
 
-Lemma journal_at_handlers : forall r f k kd, revokes_jwt f = false ->
+Lemma journal_at_handlers : forall r f k kd, goes_on f = false ->
   journal (PAt (S k) kd) (handler r f) = firstn (S k) (journal PNone (handler r f))
   /\ hit (PAt (S k) kd) (handler r f) = (S k <=? List.length (journal PNone (handler r f))).
 Proof.
@@ -291,3 +359,32 @@ Qed.
 (* the model has no state besides the storage: having served the request before changes nothing *)
 Lemma warm_irrelevant : forall r f p, model (Req r f true p) = model (Req r f false p).
 Proof. reflexivity. Qed.
+
+(* a failure that persists for every call of a method the fault-free run uses is reached *)
+Lemma hit_method : forall g m kd, In m (journal PNone g) -> hit (PMethod m kd) g = true.
+Proof.
+  induction g as [r | m1 h IHh k IHk]; intros m kd Hin.
+  - destruct Hin.
+  - rewrite journal_none_call in Hin.
+    destruct (method_beq m1 m) eqn:Hb.
+    + assert (Hs : step (PMethod m kd) m1 = (Some kd, PMethod m kd)) by (cbn; rewrite Hb; reflexivity).
+      destruct (run_call_fault _ m1 h k kd _ Hs) as [_ Ht]. unfold hit. rewrite Ht. reflexivity.
+    + assert (Hs : step (PMethod m kd) m1 = (None, PMethod m kd)) by (cbn; rewrite Hb; reflexivity).
+      destruct (run_call_pass _ m1 h k _ Hs) as [_ Ht]. unfold hit. rewrite Ht.
+      cbn [existsb faulted snd orb]. apply IHk.
+      destruct Hin as [Heq | Hin]; [|exact Hin].
+      subst. rewrite (internal_method_dec_lb m m eq_refl) in Hb. discriminate Hb.
+Qed.
+
+Lemma persistent_failure : forall r f m kd, wf_flow f = true ->
+  In m (journal PNone (handler r f)) ->
+  open_pair f m = false -> documented_answer m kd = false ->
+  closed_answer f (answer (PMethod m kd) (handler r f)) = true.
+Proof.
+  intros r f m kd Hwf Hin Hop Hdoc.
+  apply (fail_closed_run (closed_answer f) (excused f) (handler r f)).
+  - apply handlers_fail_closed; exact Hwf.
+  - apply hit_method; exact Hin.
+  - intros m' kd' Hf. destruct (faults_method _ _ _ _ _ Hf) as [Hm Hk]. subst.
+    unfold excused. rewrite Hop, Hdoc. reflexivity.
+Qed.
